@@ -342,7 +342,29 @@ class VList:
             v is None or (isinstance(v, int)) for v in (s.start, s.stop, s.step)
         ):
             return VList(self.items[s])
-        raise OutOfSubset("slice of a symbolic list / with symbolic bounds")
+        # CPython list slicing on a symbolic list / with symbolic bounds: the elements selected by
+        # range(*slice.indices(len)) in order (model = specs/pyslice.py, validated against CPython)
+        import sys as _sys
+        import os as _os
+        root = _os.path.dirname(_os.path.dirname(_os.path.abspath(__file__)))
+        if root not in _sys.path:
+            _sys.path.insert(0, root)
+        from specs import pyslice
+        if s.step is not None and not isinstance(s.step, int):
+            if CTX.branch(_zint(s.step) == 0):
+                raise PyRaise(ValueError("slice step cannot be zero"))
+        elif s.step == 0:
+            raise PyRaise(ValueError("slice step cannot be zero"))
+        src = self.snapshot()
+        if src.items is not None:
+            kind = "int" if all(_zint(x) is not None and not isinstance(x, (bool, SBool)) for x in src.items) else "ref"
+            src.make_symbolic(kind)
+        n = src.len()
+        s0, e0, st0 = pyslice.indices(n, s.start, s.stop, s.step)
+        cnt = pyslice.range_len(s0, e0, st0)
+        k = z3.Int(CTX.fresh_name("sk"))
+        arr = z3.Lambda([k], z3.Select(src.arr, _zint(s0) + k * _zint(st0)))
+        return VList(None, z3.simplify(_zint(cnt)), arr, src.kind)
 
     def iter_items(self):
         if self.items is None:
